@@ -84,13 +84,16 @@ def temporal_dag(G, u, v=None, start=None, end=None):
     DG = nx.DiGraph()
     DG.add_node(u)
     active = {u: None}
+    # occurrence name -> node id (the raw root is the only active name that is not an occurrence)
+    occ = {}
     sources, targets = {}, {}
 
     for tid in ids:
         to_remove = []
         to_add = []
         for an in active:
-            neighbors = {f"{n}_{tid}": None for n in G.neighbors(node_type(str(an).split("_")[0]), tid)}
+            root = an not in occ
+            neighbors = {f"{n}_{tid}": n for n in G.neighbors(u if root else occ[an], tid)}
             if v is not None:
                 if f"{v}_{tid}" in neighbors:
                     targets[f"{v}_{tid}"] = None
@@ -98,17 +101,20 @@ def temporal_dag(G, u, v=None, start=None, end=None):
                 for k in neighbors:
                     targets[k] = None
 
-            if len(neighbors) == 0 and an != u:
+            if len(neighbors) == 0 and not root:
                 to_remove.append(an)
 
             for n in neighbors:
-                if isinstance(an, node_type):
-                    if not isinstance(an, str) or (isinstance(an, str) and '_' not in an):
-                        an = f"{an}_{tid}"
-                        sources[an] = None
+                if root:
+                    an = f"{u}_{tid}"
+                    sources[an] = None
+                    DG.add_node(an, node=u, tid=tid)
+                    root = False
 
+                DG.add_node(n, node=neighbors[n], tid=tid)
                 DG.add_edge(an, n)
                 to_add.append(n)
+                occ[n] = neighbors[n]
 
         for n in to_add:
             active[n] = None
@@ -183,22 +189,8 @@ def time_respecting_paths(G, u, v=None, start=None, end=None, sample=1):
         for p in path:
             pt = []
             for first, second in zip(p, p[1:]):
-                u = first.split("_")
-                if len(u) == 2:
-                    u = u[0]
-                else:
-                    u = "_".join(u[0:-1])
-
-                v = second.split("_")
-                if len(v) == 2:
-                    t = v[1]
-                    v = v[0]
-                else:
-                    t = v[-1]
-                    v = "_".join(v[0:-1])
-
-                pt.append((n_type(u), n_type(v), t_type(t)))
-
+                # the occurrences carry the node id and the snapshot id they stand for
+                pt.append((DAG.nodes[first]['node'], DAG.nodes[second]['node'], DAG.nodes[second]['tid']))
             if len(pt) == 0:
                 # a source that is also a target: the trivial path has no hop
                 continue
